@@ -838,7 +838,31 @@ def c15_t1(ctx, f):
     ftog = anchor_fn(ctx, rid, f, "module::Module::toggle", ["&mut module::Module"], "()")
     if not (fnew and fty and fval and fset and ftog):
         return
-    F = mkfolder(f)
+    F0 = mkfolder(f)
+    und = []
+
+    class _F:
+        """records folds that end undecided so that the obligation depending on them abstains instead of accusing"""
+        @staticmethod
+        def run(*a, **k):
+            r = F0.run(*a, **k)
+            if r.kind in ("top", "loop"):
+                und.append("%s: %s" % (r.kind, r.why))
+            return r
+    F = _F
+
+    octx = ctx
+
+    class _Ctx:
+        def __getattr__(self, k):
+            return getattr(octx, k)
+
+        def check(self, rid_, cond, key, where, fn_, instance, reason, expected=None, found=None, sample=None):
+            if und and not cond:
+                found = und[-1]
+            del und[:]
+            return octx.check(rid_, cond, key, where, fn_, instance, reason, expected=expected, found=found, sample=sample)
+    ctx = _Ctx()
 
     def ty_of(m):
         return retval(F.run(fty.path, [m]))
